@@ -211,6 +211,17 @@ func exhDiscipline(c *Ctx) {
 	for k := range c.FuncsSet {
 		names = append(names, k)
 	}
+	if c.Tier == "thorough" {
+		have := map[string]bool{}
+		for _, k := range names {
+			have[k] = true
+		}
+		for _, k := range anchoredFuncs(c) {
+			if !have[k] {
+				names = append(names, k)
+			}
+		}
+	}
 	sort.Strings(names)
 	for _, name := range names {
 		f := scopeFuncByName[name]
